@@ -1165,10 +1165,10 @@ void var_opt_sketch<T, A>::grow_candidate_set(double wt_cands, uint32_t num_cand
     const double next_wt = peek_min();
     const double next_tot_wt = wt_cands + next_wt;
 
-    // test for strict lightness of next prospect (denominator multiplied through)
-    // ideally: (next_wt * (next_num_cands-1) < next_tot_wt)
-    //          but can use num_cands directly
-    if ((next_wt * num_cands) < next_tot_wt) {
+    // test for strict lightness of next prospect: lighter than the tau the current
+    // candidate set would produce. This is the same expression get_tau() evaluates
+    // after downsampling, so an item left in H can never compare below tau.
+    if (next_wt < (wt_cands / (num_cands - 1))) {
       wt_cands = next_tot_wt;
       ++num_cands;
       pop_min_to_m_region(); // adjusts h_ and m_
